@@ -39,7 +39,7 @@ func corpus(w *lib.Writer) {
 		{"7fffffffffffffff", 16}, {"8000000000000000", 16}, {"-8000000000000000", 16}, {"-8000000000000001", 16}, {"1_0", 16}, {" 11\r", 2}, {"", 16}, {"-", 16}, {"12", 2}} {
 		runCase(w, in{Kind: "numb", S: hx(c.s), Base: c.b})
 	}
-	for _, f := range []string{"%a %x", "%c", "%j", "%a %A %b %B %d %H %I %m %M %p %S %w %X %y %Y %Z %%", "%", "%%%", "%q%", "%F %P %z"} {
+	for _, f := range []string{"%a %x", "%c", "%j", "%a %A %b %B %d %H %I %m %M %p %S %w %X %y %Y %Z %%", "%", "%%%", "%q%", "%F %P %z", "!%m!", "!"} {
 		runCase(w, in{Kind: "strf", S: hx(f), T: 0}) // C16-6
 		runCase(w, in{Kind: "strf", S: hx(f), T: 951827696})
 	}
